@@ -127,7 +127,7 @@ def model_histories(ctx):
         model.close()
 
 
-def header_histories(ctx, n_quick=30, n_thorough=600, kinds=('regular', 'irregular', '2d', 'irregular'), tag='c15-headers'):
+def header_histories(ctx, n_quick=30, n_thorough=600, kinds=('regular', 'irregular', '2d', 'irregular', '2d-const'), tag='c15-headers'):
     """K: histories of header / tracefield reads and `clear_variant_headers` on one reader vs the Lean header-read state
     machine (Model/HeaderReads): per call the outcome class, the digest of the values and the range reads issued"""
     rng = gen.rng_for(ctx.seed, tag)
